@@ -6,6 +6,9 @@ import RactorModel.Lemmas.FactoryCountW
 import RactorModel.Lemmas.FactoryShape
 import RactorModel.Lemmas.FactoryDrain
 import RactorModel.Lemmas.FactoryHooks
+import RactorModel.Lemmas.FactoryActors
+import RactorModel.Lemmas.FactoryLimitRun
+import RactorModel.Lemmas.FactoryWorkerLimit
 
 /-!
 # C15 — Factory capacity controls: limits, rate, pool size, draining
@@ -160,6 +163,70 @@ theorem limit_dispatch (w : W) (j : Job) (L : Nat) (m : Mode) (hd : w.disc = som
     (hdisc : discardable w.cfg j = true) : (w.dispatch j).queue.length ≤ max L w.queue.length :=
   dispatch_queue_le w j L m hd hdisc
 
+/-! ## The discard limit over whole runs -/
+
+open Factory in
+/-- (limit, run level, Oldest) For every configuration with `DiscardSettings::Static { limit: L, mode: Oldest }`
+and EVERY sequence of operations that does not change the discard settings — dispatches with any keys/TTLs,
+completions, worker failures and kills, resizes, handler updates, drain, clock advances, a factory held busy —
+the factory queue holds at most `L` jobs at every quiescent point, for both queue types, every router and with or
+without a rate limiter. (Audit C15 §5.1: the one-step lemma `limit_oldest` lifted to runs. Proof: apart from
+`maybe_enqueue` every function leaves a SUBLIST of the queue, `Lemmas/FactoryLimitRun.lean`.) -/
+theorem queue_limit_oldest_run (c : CaseCfg) (L : Nat) (hd : c.disc = some (L, .oldest)) (steps : List Step)
+    (hk : steps.all (fun s => s.op.keepsDisc) = true) :
+    ((init c).runSteps steps).queue.length ≤ L :=
+  (lim_always (meas_oldest L) c hd (Nat.zero_le _) steps hk).bound
+
+open Factory in
+/-- (limit, run level, Newest) same quantification with mode `Newest`: the factory queue never holds more than
+`L` waiting DISCARDABLE jobs (with the priority queue, non-discardable jobs are admitted beyond the limit — that
+is what `is_discardable` is for). -/
+theorem queue_limit_newest_run (c : CaseCfg) (L : Nat) (hd : c.disc = some (L, .newest)) (steps : List Step)
+    (hk : steps.all (fun s => s.op.keepsDisc) = true) :
+    (((init c).runSteps steps).queue.filter (discardable ((init c).runSteps steps).cfg)).length ≤ L :=
+  (lim_always (meas_newest L) c hd (Nat.zero_le _) steps hk).bound
+
+open Factory in
+/-- … and the settings really stay what they were -/
+theorem disc_settings_constant_run (c : CaseCfg) (steps : List Step) (hk : steps.all (fun s => s.op.keepsDisc) = true) :
+    ((init c).runSteps steps).disc = c.disc :=
+  (lim_always (D := c.disc) (μ := fun _ _ => 0) (L := 0) ⟨fun _ _ _ _ => Nat.le_refl _, fun _ _ _ => Nat.zero_le _⟩
+    c rfl (Nat.le_refl _) steps hk).disc
+
+open Factory in
+def limRunCase : CaseCfg :=
+  { cfg := { router := .q, prioQueue := false, hasHandler := true, table := [], hasCC := false }, n := 1,
+    disc := some (1, .oldest), rl := none }
+open Factory in
+def limRunSteps : List Step :=
+  [⟨.nop, 0, 2000000, 3000000⟩, ⟨.dispatch 1 1 0 none false, 3000000, 4000000, 5000000⟩,
+   ⟨.dispatch 2 2 0 none false, 5000000, 6000000, 7000000⟩, ⟨.dispatch 3 3 0 none false, 7000000, 8000000, 9000000⟩,
+   ⟨.dispatch 4 4 0 none false, 9000000, 10000000, 11000000⟩]
+open Factory in
+/-- non-vacuity: the bound is reached (worker busy with job 1, job 4 waits, jobs 2 and 3 were shed) -/
+example : limRunSteps.all (fun s => s.op.keepsDisc) = true ∧ ((init limRunCase).runSteps limRunSteps).queue.map (·.id) = [4] := by
+  decide +kernel
+
+/-! ## `DiscardSettings::Dynamic` -/
+
+open Factory in
+/-- (Dynamic settings) At every `DoPings` a factory with `DiscardSettings::Dynamic { limit, mode, updater }` replaces
+`limit` by the controller's answer and does nothing else to its bookkeeping (`send_pings`; nothing is shed at that
+moment, the next `maybe_enqueue` sees the new limit). For the routers that queue at the factory the engine replays
+that step as the model's `UpdateSettings(Static{limit', mode})`; this theorem is the model half of that reduction:
+the message changes the limit and nothing else — queue, environment (no discard, no reply), pool size, router state
+are untouched, and every worker keeps the setting `None` it has under these routers. The implementation half (the
+real `DoPings` with a scripted controller does what this message does) is the differential replay of the `ping` op. -/
+theorem dynamic_limit_update (w : W) (nl : Nat) (m : Mode) (hq : isFactoryQueueing w.cfg.router = true) :
+    (w.updateSettings (some (some (nl, m))) none).disc = some (nl, m) ∧
+    (w.updateSettings (some (some (nl, m))) none).queue = w.queue ∧
+    (w.updateSettings (some (some (nl, m))) none).env = w.env ∧
+    (w.updateSettings (some (some (nl, m))) none).poolSize = w.poolSize ∧
+    (w.updateSettings (some (some (nl, m))) none).avail = w.avail ∧
+    (w.updateSettings (some (some (nl, m))) none).pool = w.pool.map (fun p => { p with disc := none }) := by
+  unfold W.updateSettings W.workerDiscard
+  simp [hq]
+
 /-! ## Discard limit on the worker queues (`enqueue_job`, worker-queueing routers) -/
 
 open Factory in
@@ -179,6 +246,34 @@ exit condition. -/
 theorem limit_worker_oldest (p : WP) (e : Env) (j : Job) (L : Nat) (hd : p.disc = some (L, .oldest))
     (hbusy : p.curr ≠ []) : (p.enqueueJob e j).1.mq.length ≤ L :=
   enqueueJob_oldest_le p e j L hd hbusy
+
+open Factory in
+/-- (limit, worker queues, WHOLE RUNS; under `noStaleRun`) for the routers that queue at the workers (key-persistent,
+round-robin, custom hash), every configuration with a discard limit `L` (either mode, 0 included, with or without a
+rate limiter, either queue type) and EVERY sequence of operations that leaves the discard settings alone and contains
+no stale completion (F4) — dispatches, completions, failures and kills, resizes, drains, handler updates, clock
+advances, a factory held busy and released — every worker's own queue holds at most `L` jobs at every instant an
+operation has been applied. (Audit C15 §5.1, the worker-queue half of the property's first sentence: the one-step
+lemma `limit_worker_queue` ASSUMED that the target's actor is open; here that is derived for every enqueue of every
+run. Three run invariants carry each other, `Lemmas/FactoryWorkerLimit.lean`: the actors agree with the bookkeeping
+(`J`), so when the factory handles a message every slot's actor is open and `dispatch_job` never pushes a job back;
+while there is a worker the factory queue is empty (`NB`), so nothing is routed while a dead worker waits for its
+replacement; the bound itself.) Without `noStaleRun` the hand-over assumption fails exactly as in F4. -/
+theorem worker_queue_limit_run_partial (c : CaseCfg) (L : Nat) (m : Mode)
+    (hq : isFactoryQueueing c.cfg.router = false) (hd : c.disc = some (L, m)) (steps : List Step)
+    (hk : steps.all (fun s => s.op.keepsDisc) = true) (hns : noStaleRun (init c) steps = true) :
+    ∀ p ∈ ((init c).runSteps steps).pool, p.disc = some (L, m) ∧ p.mq.length ≤ L :=
+  fun p hp => (wl_always c hq hd steps hk hns).b.all p hp
+
+open Factory in
+def wqRunCase : CaseCfg :=
+  { cfg := { router := .kp, prioQueue := false, hasHandler := true, table := [], hasCC := false }, n := 1,
+    disc := some (1, .oldest), rl := none }
+open Factory in
+/-- non-vacuity: the bound is reached on the worker's queue (job 1 in flight, job 4 waits, 2 and 3 were shed) -/
+example : limRunSteps.all (fun s => s.op.keepsDisc) = true ∧ noStaleRun (init wqRunCase) limRunSteps = true ∧
+    ((init wqRunCase).runSteps limRunSteps).pool.map (fun p => p.mq.map (·.id)) = [[4]] := by
+  decide +kernel
 
 /-! ## Rate limiting: rejections are reported `RateLimited` -/
 
@@ -211,6 +306,58 @@ work. (Holds since the F5 fix; before it a draining slot could linger without wo
 theorem pool_shape (c : CaseCfg) (steps : List Step) :
     Shape ((init c).runSteps steps).poolSize ((init c).runSteps steps).pool :=
   shapeInv_runSteps (init c) steps (shapeInv_init c)
+
+open Factory in
+/-- (live worker ACTORS = pool slots — `_partial`: finding F4 excluded by `noStaleRun`) For every
+configuration and EVERY sequence of operations in which no worker is killed while one of its completion
+reports is still unprocessed, as long as the factory has not entered `post_stop`:
+(1) every pool slot has a worker actor of its own (distinct slots, distinct actors) that is alive — or
+dead with its supervision event still waiting to be handled (then it is replaced in place);
+(2) every live worker actor is the worker of exactly such a slot, or it is idle and has been told to
+stop (it exits at its next turn). With `pool_shape` / `pool_converges` (slots = `0 … pool_size-1` once
+nobody has work): the live workers converge to the last requested size. -/
+theorem live_workers_are_pool_slots_partial (c : CaseCfg) (steps : List Step) (hns : noStaleRun (init c) steps = true) :
+    let w := (init c).runSteps steps
+    w.stopped = false →
+      (∀ p ∈ w.pool, ∃ a, w.env.getActor p.actor = some a ∧ a.wid = p.wid ∧ (a.alive = true ∨ p.actor ∈ w.env.sup)) ∧
+      (∀ p ∈ w.pool, ∀ q ∈ w.pool, p.actor = q.actor → p = q) ∧
+      (∀ aid a, w.env.getActor aid = some a → a.alive = true →
+        (∃ p ∈ w.pool, p.actor = aid ∧ p.wid = a.wid ∧ a.stopReq = false) ∨ (a.heldJobs = [] ∧ a.stopReq = true)) := by
+  intro w hs
+  have hc := (j_always c steps hns).core hs
+  refine ⟨?_, fun p hp q hq h => hc.actor_inj hp hq h, ?_⟩
+  · intro p hp
+    obtain ⟨a, g, hw, _, hd⟩ := hc.sa p hp
+    refine ⟨a, g, hw, ?_⟩
+    cases hx : a.alive with
+    | true => exact Or.inl rfl
+    | false => exact Or.inr (hd hx).1
+  · intro aid a g hal
+    by_cases hslot : ∃ p ∈ w.pool, p.actor = aid
+    · obtain ⟨p, hp, hpa⟩ := hslot
+      obtain ⟨x, gx, hxw, hxa, _⟩ := hc.sa p hp
+      rw [hpa, g] at gx; cases gx
+      exact Or.inl ⟨p, hp, hpa, hxw.symm, (hxa hal).1⟩
+    · exact Or.inr (hc.free aid a g hal (fun p hp hpa => hslot ⟨p, hp, hpa⟩))
+
+open Factory in
+/-- (the hypothesis of `limit_worker_queue`, as an invariant — `_partial` under `noStaleRun`) whenever the factory
+has no supervision event left to handle — which is the case whenever it handles a MESSAGE, since supervision
+events outrank messages — the worker actor of every pool slot is open: a hand-over (`dispatch_job`) to it succeeds.
+`limit_worker_queue` assumed this (`ActorOpen`); it is now derived for every run without a stale completion. -/
+theorem slot_workers_open_at_message_boundary_partial (c : CaseCfg) (steps : List Step)
+    (hns : noStaleRun (init c) steps = true) :
+    let w := (init c).runSteps steps
+    w.stopped = false → w.env.sup = [] → ∀ p ∈ w.pool, ActorOpen w.env p.actor := by
+  intro w hs hsup p hp
+  have hc := (j_always c steps hns).core hs
+  obtain ⟨a, g, _, _, hd⟩ := hc.sa p hp
+  refine ⟨a, g, ?_⟩
+  cases hx : a.alive with
+  | true => rfl
+  | false =>
+    have := (hd hx).1
+    rw [hsup] at this; cases this
 
 open Factory in
 /-- (convergence) once no slot has work, the pool is exactly the slots `0 … pool_size - 1`,
@@ -308,6 +455,54 @@ theorem draining_waits_for_work (w : W) (hb : w.blocked = false) (hd : w.drain =
       | nil => exact absurd hq h
       | cons _ _ => rfl
     simp [hb, hd, this, hs]
+
+open Factory in
+/-- (drain after the LAST busy worker died — audit item) `handle_supervisor_evt` ends without the `is_drained()`
+check that ends `handle`: when the last busy worker of a draining factory dies, the factory — now idle, queue
+empty — is still up after the supervision event. It stops at the NEXT message it handles; the one that is
+guaranteed to come is the `Calculate` tick (re-armed by every `calculate_metrics`, period
+`CALCULATE_FREQUENCY` = 100 ms): for ANY such state, handling `Calculate` (not suspended in a capacity
+controller) raises the stop signal. So "the factory then stops" holds with a delay of at most one tick; the
+harness's own post-operation query plays the role of that next message (stat
+`drained_factory_stopped_only_by_next_message`). -/
+theorem drain_completes_at_next_tick (w : W) (hd : w.drain = .draining)
+    (hidle : w.pool.all (·.isAvailable) = true) (hq : w.queue = []) (hb : w.blocked = false)
+    (hg : (w.cfg.hasCC && w.armed) = false) :
+    ((w.handleMsg .calculate).afterHandle).stopSignal = true := by
+  have h1 : w.handleMsg .calculate = w.calcRest := by
+    show (if w.cfg.hasCC && w.armed then { w with armed := false, blocked := true } else w.calcRest) = _
+    rw [hg]; rfl
+  rw [h1]
+  have hpool : w.calcRest.pool = w.pool := by
+    unfold W.calcRest W.removeExpired; split <;> rfl
+  have hqueue : w.calcRest.queue = [] := by
+    unfold W.calcRest W.removeExpired; split
+    · simp only [hq, List.filter_nil]
+    · exact hq
+  have hblocked : w.calcRest.blocked = false := by
+    unfold W.calcRest W.removeExpired; split <;> exact hb
+  have hdrain : w.calcRest.drain = .draining := by
+    unfold W.calcRest W.removeExpired; split <;> exact hd
+  exact (drained_factory_stops w.calcRest hblocked hdrain (by rw [hpool]; exact hidle) hqueue).1
+
+open Factory in
+/-- the scenario on the model (queuer, 1 worker): job 1 running, DrainRequests, the worker is killed. Right
+after the supervision event (before any further message) the factory is up, idle and draining, its stop signal
+down; 100 ms later — the `Calculate` tick, no other message — it has stopped. -/
+def drainDeathCase : CaseCfg :=
+  { cfg := { router := .q, prioQueue := false, hasHandler := true, table := [], hasCC := false }, n := 1, disc := none, rl := none }
+open Factory in
+def drainDeathSteps : List Step :=
+  [⟨.nop, 0, 2000000, 3000000⟩, ⟨.dispatch 1 1 0 none false, 3000000, 4000000, 5000000⟩, ⟨.drain, 5000000, 6000000, 7000000⟩]
+open Factory in
+def drainDeathAfterKill : W := W.runQ RUN_FUEL (((init drainDeathCase).runSteps drainDeathSteps).applyOp (.kill 0))
+open Factory in
+example : drainDeathAfterKill.exited = false ∧ drainDeathAfterKill.stopSignal = false ∧
+    drainDeathAfterKill.drain = .draining ∧ drainDeathAfterKill.queue.length = 0 ∧
+    drainDeathAfterKill.pool.map (·.isAvailable) = [true] ∧ drainDeathAfterKill.inbox.length = 0 := by decide +kernel
+open Factory in
+example : (W.advanceTo 110000000 (advanceFuel drainDeathAfterKill 110000000) drainDeathAfterKill).exited = true := by
+  decide +kernel
 
 /-! ## Lifecycle hooks run in the order started, draining, stopped -/
 
@@ -474,10 +669,18 @@ end C15
 #print axioms C15.newest_sheds_incoming_once
 #print axioms C15.oldest_sheds_each_once
 #print axioms C15.limit_dispatch
+#print axioms C15.queue_limit_oldest_run
+#print axioms C15.queue_limit_newest_run
+#print axioms C15.disc_settings_constant_run
+#print axioms C15.worker_queue_limit_run_partial
+#print axioms C15.dynamic_limit_update
 #print axioms C15.limit_worker_queue
 #print axioms C15.limit_worker_oldest
 #print axioms C15.rate_limited_dispatch
 #print axioms C15.pool_shape
+#print axioms C15.live_workers_are_pool_slots_partial
+#print axioms C15.slot_workers_open_at_message_boundary_partial
+#print axioms C15.drain_completes_at_next_tick
 #print axioms C15.pool_converges
 #print axioms C15.resize_sets_size
 #print axioms C15.drain_is_forever
